@@ -507,6 +507,13 @@ def build(out_path, only=None):
     variant = os.environ.get('VERIF_VARIANT', 'main')
     want = {'main': 'assumed', 'hdrproof': 'proof'}[variant]
     specs = [sp for sp in specs if sp.extra.get('variant') in (None, want)]
+    # functions whose proof annotations cannot even be type-checked against the current source (renamed local, removed
+    # variable ...) can be demoted by the driver to contract-only, so that the rest of the file is still verified
+    demote = set(x for x in os.environ.get('VERIF_ASSUME_BODY', '').split(',') if x)
+    for sp in specs:
+        if sp.key in demote:
+            sp.trusted = True
+            sp.extra['demoted'] = True
     for sp in specs:
         if only and sp.key not in only and sp.name not in only:
             continue
@@ -526,10 +533,15 @@ def build(out_path, only=None):
             text = get_fn(src.expanded(), sp.name, sp.scope)
         else:
             text = get_fn(src.get(sp.source), sp.name, sp.scope)
-        text, hoisted = hoist_local_items(text, sp.key)
-        hoisted_all += [(sp.key, h) for h in hoisted]
-        text = generic_rewrites(text, sp.key)
-        o = inject(sp, text, con, warnings)
+        try:
+            text, hoisted = hoist_local_items(text, sp.key)
+            hoisted_all += [(sp.key, h) for h in hoisted]
+            text = generic_rewrites(text, sp.key)
+            o = inject(sp, text, con, warnings)
+        except AnchorLost as e:
+            if str(e).startswith(sp.key + ': '):
+                raise
+            raise AnchorLost('%s: %s' % (sp.key, e))
         fn_outs[sp.key] = (sp, o)
     return src, specs, contracts, fn_outs, hoisted_all, warnings
 
@@ -724,7 +736,7 @@ def assemble(out_path, only=None):
     open(out_path, 'w').write(out.text())
     json.dump(dict(regions=out.linemap(), warnings=warnings, rewrites=REWRITE_LOG,
                    functions=[dict(key=sp.key, name=sp.name, source=sp.source, scope=sp.scope, mode=sp.mode, tags=sp.tags,
-                                   trusted=sp.trusted) for sp in specs if sp.key in fn_outs]),
+                                   trusted=sp.trusted, demoted=bool(sp.extra.get('demoted'))) for sp in specs if sp.key in fn_outs]),
               open(re.sub(r'\.rs$', '', out_path) + '.map.json', 'w'), indent=0)
     return warnings
 
